@@ -193,7 +193,8 @@ Theorem C02_reencode_upto4 : forallb reencode_check (tables 4) = true.
 Proof. exact reencode_upto4. Qed.
 Print Assumptions C02_reencode_upto4.
 
-(* Not proved (kept as a statement): sharing ids that are absent for some nodes (commitment time: nodes that
+(* Phase 1: not proved (kept as a statement); phase 2: PROVED below as C02_reencode_partial_ids (theorem 25).
+   Sharing ids that are absent for some nodes (commitment time: nodes that
    contain witness or disconnect nodes have no identity hash and are never shared).  Then re-encoding is the
    identity only if such nodes are referenced once; the check covers this case by search and correspondence. *)
 Definition C02_reencode_partial_ids_statement : Prop :=
@@ -204,3 +205,32 @@ Definition C02_reencode_partial_ids_statement : Prop :=
      (length (filter (fun q => existsb (N.eqb p) (dchildren (node_at ns q))) (upto (length ns))) <= 1)%nat /\
      forall q, In p (dchildren (node_at ns q)) -> dchildren (node_at ns q) = [p] \/ exists c, c <> p /\ (dchildren (node_at ns q) = [p; c] \/ dchildren (node_at ns q) = [c; p])) ->
   dec_struct ns = Ok tt -> linearise ns key = ns.
+
+(* ------------------------------------------------------------------ phase 2 *)
+From RS Require Import Codec.Partial Codec.PartialInst.
+
+(* 24. sharing ids that are absent on some nodes (commitment time): the traversal under ids that distinguish the
+   nodes that have one, where every node without id is referenced by one node only and once there, is the
+   traversal under pointer identity *)
+Theorem C02_traverse_partial : forall (ch : N -> list N) (key : N -> option N) (bound : N),
+  (forall n c, In c (ch n) -> c < n) -> (forall n, (length (ch n) <= 2)%nat) ->
+  (forall p q k, p < bound -> q < bound -> key p = Some k -> key q = Some k -> p = q) ->
+  (forall c q1 q2, c < bound -> key c = None -> In c (ch q1) -> In c (ch q2) -> q1 = q2) ->
+  (forall n a b, ch n = [a; b] -> (key a = None \/ key b = None) -> a <> b) ->
+  forall root, root < bound -> traverse ch key root = traverse ch key_ptr root.
+Proof. exact traverse_partial. Qed.
+Print Assumptions C02_traverse_partial.
+
+(* 25. THE STATEMENT KEPT ABOVE AS A DEFINITION: whatever the decoder's second pass accepts is re-encoded as
+   itself under such partial ids *)
+Theorem C02_reencode_partial_ids : C02_reencode_partial_ids_statement.
+Proof. exact reencode_partial_ids. Qed.
+Print Assumptions C02_reencode_partial_ids.
+
+(* the hypotheses are satisfiable: a witness node (no id) below a pair (no id), each referenced once *)
+Theorem C02_reencode_partial_ids_example :
+  let ns : list (dnode N) := [DWitness; DUnit; DPair 0 1; DUnit; DComp 2 3] in
+  let key := key_list [None; Some 0; None; Some 1; None] in
+  dec_struct ns = Ok tt /\ linearise ns key = ns.
+Proof. exact reencode_partial_ex. Qed.
+Print Assumptions C02_reencode_partial_ids_example.
